@@ -162,8 +162,7 @@ def build(net, outdir):
     os.makedirs(cache, exist_ok=True)
     cached = os.path.join(cache, h.hexdigest()[:32])
     exe = os.path.join(outdir, "rpcdrv")
-    if os.path.exists(cached):
-        shutil.copy(cached, exe)
+    if cppdriver.cache_fetch(cached, exe):
         return "ok", exe, text
     with open(os.path.join(outdir, "rpc_driver.cpp"), "w") as f:
         f.write(src)
@@ -171,10 +170,7 @@ def build(net, outdir):
     if p.returncode != 0:
         err = [l for l in p.stderr.split("\n") if "error" in l]
         return "compile-error", (err[0] if err else p.stderr[:600]), text
-    ents = sorted((os.path.getmtime(os.path.join(cache, e)), e) for e in os.listdir(cache))
-    while len(ents) > 30:
-        os.remove(os.path.join(cache, ents.pop(0)[1]))
-    shutil.copy(exe, cached)
+    cppdriver.cache_store(exe, cached, 30)
     return "ok", exe, text
 
 
